@@ -6,3 +6,8 @@ from sa.core.alpha import make_reference, REF_PATH
 ref = make_reference(os.path.join(os.environ.get("VERIF_REPO", "/repo"), "src/wikitextprocessor"))
 json.dump(ref, open(REF_PATH, "w"), indent=0, ensure_ascii=False)
 print("functions:", sum(len(v) for v in ref.values()), "->", REF_PATH)
+
+from sa.core import canon
+ref2 = canon.make_reference(os.path.join(os.environ.get("VERIF_REPO", "/repo"), "src/wikitextprocessor"))
+json.dump(ref2, open(canon.REF_PATH, "w"), indent=0, ensure_ascii=False)
+print("names:", sum(len(v["functions"]) for v in ref2.values()), "functions,", sum(len(v["constants"]) for v in ref2.values()), "module constants ->", canon.REF_PATH)
